@@ -1,34 +1,125 @@
-// Contract harnesses for serverbrowse/src/protocol.rs (C18).
+// Contract harnesses for serverbrowse/src/protocol.rs (C18): parsing is total.
+// parse_server_info is closure/macro driven over Unpacker and str::from_utf8; Kani did not finish a 6-byte harness in
+// 15 minutes, Verus does not accept the closures.  The merge half of C18 is proved by the Verus unit sb_merge; the
+// parsing half is only SAMPLED here (native PRNG driver): replayable counterexamples, no proof.
 use super::*;
 
 #[path = "/verif/kani/draw.rs"]
 mod draw;
 
-/// parsing a datagram as an extended-info continuation ("iex+") returns a value or nothing, never panics
-/// BOUNDED: datagram bodies of <= N bytes (enough for "<token>\0<packet_no>\0\0").
-pub fn contract_info6exmore_total<const N: usize>(b: [u8; N], len: usize) {
-    if len > N {
-        return;
+/// contract: parsing any datagram as a master-server or server-info response returns a value or nothing, never
+/// panics; every info kind is parsed down to its fields
+#[cfg(not(kani))]
+pub fn contract_parse_total(d: &[u8]) {
+    match parse_response(d) {
+        None => {}
+        Some(Response::Info5(x)) => {
+            let _ = x.parse();
+        }
+        Some(Response::Info6(x)) => {
+            let _ = x.parse();
+        }
+        Some(Response::Info6Ddper(x)) => {
+            let _ = x.parse();
+        }
+        Some(Response::Info664(x)) => {
+            if let Some(mut p) = x.parse() {
+                let _ = p.get_info();
+            }
+        }
+        Some(Response::Info6Ex(x)) => {
+            if let Some(mut p) = x.parse() {
+                let _ = p.get_info();
+            }
+        }
+        Some(Response::Info6ExMore(x)) => {
+            let _ = x.parse();
+        }
+        Some(Response::Info7(x)) => {
+            let _ = x.parse();
+        }
+        Some(Response::List5(l)) => {
+            for a in l.0 {
+                let _ = a.unpack();
+            }
+        }
+        Some(Response::List6(l)) => {
+            for a in l.0 {
+                let _ = a.unpack();
+            }
+        }
+        Some(Response::List7(l)) => {
+            for a in l.2 {
+                let _ = a.unpack();
+            }
+        }
+        Some(_) => {}
     }
-    let _ = Info6ExMoreResponse(&b[..len]).parse();
-}
-/// same for the legacy 64-player info ("dtsf")
-pub fn contract_info664_total<const N: usize>(b: [u8; N], len: usize) {
-    if len > N {
-        return;
-    }
-    let _ = Info664Response(&b[..len]).parse();
 }
 
 pub mod proofs {
+    #[allow(unused_imports)]
     use super::draw;
+    #[allow(unused_imports)]
     use super::draw::harness;
+    #[allow(unused_imports)]
     use super::*;
-    harness!(bounded_info6exmore_parse, unwind = 9, {
-        let b = draw::bytes::<6>();
-        let len = draw::usize();
-        draw::assume(len <= 6);
+
+    // A datagram for one of the thirteen response kinds (or an unknown header), whose payload is a sequence of
+    // NUL-terminated fields.  Most fields are decimal numbers (a number is also a valid string, so such payloads parse
+    // deep into every text format) drawn with a bias to small values and to the i32 boundaries; some are texts,
+    // empty, overlong numbers or raw bytes.  For the 0.7 info the fields are packed ints / strings.  The datagram is
+    // then truncated at a drawn position.
+    #[cfg(not(kani))]
+    harness!(sampled_sb_parse_total, unwind = 1, {
+        let kinds: [&[u8]; 14] = [
+            LIST_5, LIST_6, INFO_5, INFO_6, INFO_6_DDPER, INFO_6_64, INFO_6_EX, INFO_6_EX_MORE, COUNT, TOKEN_7, LIST_7, INFO_7,
+            COUNT_7, b"\xff\xff\xff\xff\xff\xff\xff\xff\xff\xffxxxx",
+        ];
+        let k = draw::usize_le(13);
+        let mut d: Vec<u8> = kinds[k].to_vec();
+        if draw::usize_le(9) == 0 {
+            // disturb one header byte
+            let i = draw::usize_le(d.len() - 1);
+            d[i] = draw::u8();
+        }
+        let nfields = match draw::usize_le(3) {
+            0 => draw::usize_le(12),
+            1 => draw::usize_le(40),
+            _ => draw::usize_le(400),
+        };
+        let packed = k == 11 && draw::usize_le(3) != 0;
+        for _ in 0..nfields {
+            let sel = draw::usize_le(19);
+            if packed && sel < 12 {
+                // 0.7: variable-length packed int
+                let mut buf = [0u8; 8];
+                let v = draw::i32();
+                let n = libtw2_packer::with_packer(&mut buf[..], |mut p| {
+                    p.write_int(v).unwrap();
+                    p.written().len()
+                });
+                d.extend_from_slice(&buf[..n]);
+                continue;
+            }
+            match sel {
+                0..=11 => d.extend_from_slice(format!("{}", draw::i32()).as_bytes()),
+                12 => d.extend_from_slice(format!("{}", draw::u64()).as_bytes()),
+                13 => d.extend_from_slice(b"-"),
+                14 => {}
+                15 => d.extend_from_slice(b"name with spaces"),
+                16 => d.extend_from_slice(&[0xff, 0xfe, 0x80]),
+                17 => d.extend_from_slice(format!("{}", draw::usize_le(70)).as_bytes()),
+                18 => d.extend_from_slice(format!("-{}", draw::usize_le(70)).as_bytes()),
+                _ => d.extend_from_slice(&draw::bytes::<3>()),
+            }
+            d.push(0);
+        }
+        if draw::bool() {
+            let cut = draw::usize_le(d.len());
+            d.truncate(cut);
+        }
         draw::reached();
-        contract_info6exmore_total::<6>(b, len);
+        contract_parse_total(&d);
     });
 }
